@@ -115,3 +115,332 @@ def regroup(toks):
         out.append(' '.join(toks[i:i + 1 + n]))
         i += 1 + n
     return out
+
+# ----------------------------------------------------------------------------- generic
+
+RULES = {
+    'C12': 'exhaustive: all 36 ordered pairs of outputs over Result<u8,u8> with payloads {0,1,2} x the five built-in output checkers (through the generic trait impls), plus EqualsChecker/AlwaysConsistent on a non-Result type; each line compared with the model and with the documented relation',
+}
+ASSUMPTIONS = {
+    'C12': ['payload equality of the checked type is its Eq impl (modelled as a decidable equality)', 'the OutputCheckerObj proxy is crate-private and not probed'],
+}
+
+
+def comparable(prop, lines):
+    return [l for l in lines if not l.startswith('ls ')]
+
+# ----------------------------------------------------------------------------- output checkers (C12)
+
+def checkers_oracle(toks, lines):
+    """documented relation of each built-in output checker"""
+    n = 0
+    for l in lines:
+        f = l.split()
+        if f[0] == 'k':
+            o1, o2, bits = f[1], f[2], f[3]
+            ok1, ok2 = o1[0] == 'O', o2[0] == 'O'
+            exp = [
+                o1 != o2,                                              # EqualsChecker: equality
+                not ((ok1 and ok2 and o1 == o2) or (not ok1 and not ok2)),   # OkEquals: equal Ok payloads, all errors equivalent
+                not ((not ok1 and not ok2 and o1 == o2) or (ok1 and ok2)),   # ErrEquals: equal Err payloads, all successes equivalent
+                ok1 != ok2,                                            # ResultChecker: same Ok/Err-ness
+                False,                                                 # AlwaysConsistent
+            ]
+            got = [c == '1' for c in bits]
+            if got != exp:
+                names = ['EqualsChecker', 'OkEqualsChecker', 'ErrEqualsChecker', 'ResultChecker', 'AlwaysConsistent']
+                j = next(i for i in range(5) if got[i] != exp[i])
+                return '%s: output %s checked against the stamp of %s is reported %s, the documented relation says %s' % (
+                    names[j], o1, o2, 'inconsistent' if got[j] else 'consistent', 'inconsistent' if exp[j] else 'consistent')
+            n += 1
+        elif f[0] == 'p':
+            a, c, bits = f[1], f[2], f[3]
+            if (bits[0] == '1') != (a != c) or bits[1] != '0':
+                return 'EqualsChecker/AlwaysConsistent on integers: %s vs stamp of %s gives %s' % (a, c, bits)
+            n += 1
+    if n != 36 + 16:
+        return 'probe printed %d lines instead of 52' % n
+    return None
+
+# ----------------------------------------------------------------------------- map resource (C14)
+
+MAP_STATES = [1001, 1002, 1003, 11, 12]
+
+def gen_map_case(rng):
+    toks = []
+    slots = 0
+    for _ in range(rng.randint(3, 40)):
+        r = rng.random()
+        kt = rng.randint(1, 3); k = rng.randint(0, 3)
+        if r < 0.22: toks += ['w', str(kt), str(k), str(rng.randint(0, 9))]
+        elif r < 0.30: toks += ['x', str(kt), str(k)]
+        elif r < 0.40: toks += ['i', str(kt), str(k), str(rng.randint(0, 9))]
+        elif r < 0.60: toks += ['r', str(kt), str(k)]
+        elif r < 0.70: toks += ['t', str(rng.randint(0, 3)), str(kt), str(k)]
+        elif r < 0.80: toks += ['c', str(rng.randint(0, 3))]
+        elif r < 0.87:
+            s = (1000 + kt) if rng.random() < 0.6 else rng.choice(MAP_STATES)
+            toks += ['g', str(kt), str(s)]
+        elif r < 0.93:
+            s = (1000 + kt) if rng.random() < 0.5 else rng.choice(MAP_STATES)
+            toks += ['d', str(kt), str(s)]
+        else:
+            toks += ['s', str(kt), str(rng.choice(MAP_STATES)), str(rng.randint(0, 9))]
+    return toks
+
+
+def gen_map_cases(rng, tier):
+    n = 600 if tier == 'quick' else 20000
+    corpus = ["w 1 5 7 t 0 1 5 x 1 5 c 0 r 1 5".split(),                 # stamped Some, then removed: inconsistent
+              "t 0 1 5 w 1 5 7 c 0 x 1 5 c 0".split(),
+              "w 1 1 1 w 2 1 2 w 3 1 3 r 1 1 r 2 1 r 3 1 d 2 1003 r 1 1 r 2 1 r 3 1".split(),
+              "s 1 11 4 g 1 11 r 1 0 g 1 11 g 1 1001".split()]
+    return corpus + [gen_map_case(rng) for _ in range(n)]
+
+
+def map_oracle(toks, lines):
+    """abstract specification: per resource type an optional (state type, dict); read-your-writes; per-type isolation;
+    equality checker consistent exactly when current == stamped; the three routes agree"""
+    st = {}      # resource type -> (state type, dict)
+    slots = {}
+    def gmap(kt):   # get_global_map: get_or_set_default of the matching map type
+        cur = st.get(kt)
+        if cur is None or cur[0] != 1000 + kt:
+            st[kt] = (1000 + kt, {})
+        return st[kt][1]
+    def show(d): return ','.join('%d=%d' % kv for kv in sorted(d.items()))
+    def o(v): return 'None' if v is None else 'Some(%d)' % v
+    i = 0; li = 0
+    while i < len(toks):
+        op = toks[i]
+        if op == 'g':
+            r, s = int(toks[i + 1]), int(toks[i + 2]); i += 3
+            cur = st.get(r)
+            exp = 'g None' if cur is None or cur[0] != s else 'g Some[%s]' % show(cur[1])
+        elif op == 's':
+            r, s, v = int(toks[i + 1]), int(toks[i + 2]), int(toks[i + 3]); i += 4
+            st[r] = (s, {0: v}); exp = 'u'
+        elif op == 'd':
+            r, s = int(toks[i + 1]), int(toks[i + 2]); i += 3
+            cur = st.get(r)
+            if cur is None or cur[0] != s:
+                st[r] = (s, {})
+            exp = 'd [%s]' % show(st[r][1])
+        elif op == 'r':
+            kt, k = int(toks[i + 1]), int(toks[i + 2]); i += 3
+            exp = 'r ' + o(gmap(kt).get(k))
+        elif op in ('w', 'i'):
+            kt, k, v = int(toks[i + 1]), int(toks[i + 2]), int(toks[i + 3]); i += 4
+            gmap(kt)[k] = v; exp = 'u'
+        elif op == 'x':
+            kt, k = int(toks[i + 1]), int(toks[i + 2]); i += 3
+            gmap(kt).pop(k, None); exp = 'u'
+        elif op == 't':
+            sl, kt, k = int(toks[i + 1]), int(toks[i + 2]), int(toks[i + 3]); i += 4
+            v = gmap(kt).get(k)
+            slots[sl] = (kt, k, v)
+            exp = 't %s %s %s' % (o(v), o(v), o(v))
+        elif op == 'c':
+            sl = int(toks[i + 1]); i += 2
+            if sl not in slots: exp = 'c none'
+            else:
+                kt, k, sv = slots[sl]
+                exp = 'c %d' % (0 if gmap(kt).get(k) == sv else 1)
+        else:
+            return 'bad op ' + op
+        if li >= len(lines):
+            return 'probe stopped after %d observations' % li
+        if lines[li] != exp:
+            return 'map resource: operation %d (%s ...) observed %r, the specification (latest value wins, per-type isolation, equality checker) gives %r' % (li, op, lines[li], exp)
+        li += 1
+    return None
+
+RULES['C14'] = 'random + corpus sequences of typed state accesses (get/set/get_or_set_default with matching and non-matching state types), map reads, writer insert/remove, direct inserts, three-route stamps and checks against kept stamps, over three key types; run on the real TypeToAnyMap/map resource (misc_probe map) and on the extracted model; compared line by line with each other and with a python dictionary specification'
+ASSUMPTIONS['C14'] = ['TypeId equality is modelled by equality of type codes; HashMap iteration order is canonicalised by sorting']
+RULES['C12'] = RULES['C12']
+
+# ----------------------------------------------------------------------------- key identity (C15)
+
+def gen_keys_case(rng):
+    toks = []
+    for _ in range(rng.randint(3, 30)):
+        r = rng.random()
+        if r < 0.40:
+            toks += ['q', str(rng.randint(0, 6)), str(rng.randint(0, 2))]
+        elif r < 0.65:
+            f = rng.randint(0, 3); toks += ['R', str(f), str(rng.randint(0, 1) if f < 2 else 0)]
+        elif r < 0.80:
+            f = rng.randint(0, 3); toks += ['E', str(f), str(rng.randint(0, 1) if f < 2 else 0), str(rng.randint(0, 5))]
+        elif r < 0.85:
+            f = rng.randint(0, 3); toks += ['D', str(f), str(rng.randint(0, 1) if f < 2 else 0)]
+        else:
+            f = rng.randint(0, 3); toks += ['b', str(f), str(rng.randint(0, 1) if f < 2 else 0)]
+    return toks
+
+
+def gen_keys_cases(rng, tier):
+    corpus = ["q 0 3 q 1 3 q 3 3 q 0 3 q 4 3 q 5 3 q 6 3 q 2 3 q 3 3 q 6 3".split(),
+              "R 2 0 R 3 0 E 2 0 5 b 2 0 R 2 0 R 3 0 E 3 0 7 b 2 0 b 3 0".split(),        # zero-sized resource types, boxed change reports
+              "R 0 1 R 1 1 E 0 1 4 b 1 1 b 0 1 R 0 1 R 1 1".split()]
+    return corpus + [gen_keys_case(rng) for _ in range(500 if tier == 'quick' else 15000)]
+
+
+MODK = 1000003
+def keys_oracle(toks, lines):
+    """identity is (concrete type, value): an independent reference with one cache entry per (family, value)"""
+    inner = {0: 0, 1: 1, 2: 2, 3: 0, 4: 0, 5: 0, 6: 1}
+    cache = set()          # executed task keys
+    content = {}           # (rfam, v) -> value
+    rstamp = {}            # reader (rfam, v) -> content seen
+    def mixv(v): return (0 * 31 + (0 if v is None else v + 1) + 7) % MODK
+    i = 0; li = 0
+    while i < len(toks):
+        op, f, v = toks[i], int(toks[i + 1]), int(toks[i + 2]); i += 3
+        if op == 'q':
+            x = 0 if ('t', f, v) in cache else 1
+            cache.add(('t', f, v))
+            exp = 'o %d x%d' % (inner[f] * 100 + v, x)
+        elif op == 'R':
+            key = (f, v)
+            cur = content.get(key)
+            if key not in rstamp or rstamp[key] != cur:
+                rstamp[key] = cur; x = 1
+            else:
+                x = 0
+            exp = 'o %d x%d' % (mixv(cur), x)
+        elif op == 'E':
+            content[(f, v)] = int(toks[i]); i += 1
+            exp = 'o u x0'
+        elif op == 'D':
+            content.pop((f, v), None); exp = 'o u x0'
+        else:
+            key = (f, v)
+            x = 0
+            if key in rstamp and rstamp[key] != content.get(key):
+                rstamp[key] = content.get(key); x = 1
+            exp = 'o done x%d' % x
+        if li >= len(lines): return 'probe stopped after %d observations' % li
+        if lines[li] != exp:
+            return 'key identity: operation %d (%s %d %d) observed %r; treating keys as (concrete type, value) gives %r' % (li, op, f, v, lines[li], exp)
+        li += 1
+    return None
+
+RULES['C15'] = 'random + corpus sequences of requires of tasks from seven type families with identical fields, Hash and Debug text (three newtypes, Box/Rc/Arc of one, Box of another), reader tasks over four resource key types (two zero-sized), external edits and bottom-up builds whose change report is a boxed trait object; run on the real Pie (misc_probe keys) and on the N-keyed model under the injective renaming (family,value)->N; outputs and execution counts compared, plus an independent (type,value)-keyed reference'
+ASSUMPTIONS['C15'] = ['TypeId and downcast_ref are modelled by the type component of the key; Debug text of the families coincides so tracker events are not compared here']
+
+# ----------------------------------------------------------------------------- file checkers (C13)
+
+FS_SIZES = [0, 1, 5, 8191, 8192, 8193, 9000, 20000]
+FS_DIRS = [[], ['a'], ['b'], ['a', 'b'], ['ab'], ['ba', 'a'], ['b', 'aa'], ['x', 'y', 'z'], ['xy', 'z'], ['x', 'yz'], ['abc', 'd'], ['ab', 'cd']]
+
+def fs_state(rng):
+    r = rng.random()
+    if r < 0.12: return ['A']
+    if r < 0.65: return ['F', str(rng.choice(FS_SIZES)), str(rng.randint(0, 3)), str(rng.choice([100, 200]))]
+    d = rng.choice(FS_DIRS)
+    return ['D', str(rng.choice([100, 200])), str(len(d))] + d
+
+
+def gen_fs_cases(rng, tier):
+    cases = [
+        "D 7 2 ba a | D 7 2 b aa".split(),                  # O10 witness: different name sets, same concatenation
+        "D 7 2 xy z | D 7 2 x yz".split(),
+        "F 9000 0 100 | F 9000 3 100".split(),              # same size and mtime, content differs beyond the 8 KiB buffer
+        "F 8193 0 100 | F 8193 1 100".split(),
+        "F 10 0 100 | F 10 0 200".split(),
+        "A | F 0 0 100".split(), "F 0 0 100 | A".split(), "A | A".split(), "D 100 0 | A".split(),
+    ]
+    n = 260 if tier == 'quick' else 6000
+    for i in range(n):
+        s1 = fs_state(rng)
+        if rng.random() < 0.35 and s1[0] == 'F':            # a near twin: same size, other variant or other mtime
+            s2 = ['F', s1[1], str(rng.randint(0, 3)), rng.choice([s1[3], '100', '200'])]
+        elif rng.random() < 0.3 and s1[0] == 'D':
+            d = rng.choice(FS_DIRS)
+            s2 = ['D', rng.choice([s1[1], '100', '200']), str(len(d))] + d
+        else:
+            s2 = fs_state(rng)
+        cases.append(s1 + ['|'] + s2)
+    return cases
+
+
+def fs_parse_state(toks, i):
+    if toks[i] == 'A': return ('A',), i + 1
+    if toks[i] == 'F': return ('F', int(toks[i + 1]), int(toks[i + 2]), int(toks[i + 3])), i + 4
+    n = int(toks[i + 2])
+    return ('D', int(toks[i + 1]), tuple(toks[i + 3:i + 3 + n])), i + 3 + n
+
+
+def fs_content_differs(a, b):
+    """variants: 0 base, 1 last byte, 2 first byte, 3 byte 8197 (or last byte for small files)"""
+    if a[1] != b[1]: return True
+    size = a[1]
+    if size == 0: return False
+    def diffpos(v):
+        if v == 0: return set()
+        if v == 1: return {size - 1}
+        if v == 2: return {0}
+        return {8197 if size > 8200 else size - 1}
+    return diffpos(a[2]) != diffpos(b[2])
+
+
+def fs_oracle(toks, lines):
+    s1, i = fs_parse_state(toks, 0)
+    s2, _ = fs_parse_state(toks, i + 1)
+    d = {}
+    for l in lines:
+        f = l.split()
+        if f[0] == 'ls': continue
+        d[(f[0], f[1])] = f[2:]
+    ex = lambda s: s[0] != 'A'
+    mt = lambda s: None if s[0] == 'A' else (s[3] if s[0] == 'F' else s[1])
+    names = {'E': 'ExistsChecker', 'M': 'ModifiedChecker', 'H': 'HashChecker'}
+    for c in 'EMH':
+        r = d.get(('r', c)); u = d.get(('u', c)); k = d.get(('k', c)); w = d.get(('w', c))
+        if r is None or u is None or k is None or w is None:
+            return 'probe output incomplete for checker %s' % c
+        if r[0] != 'eq=1':
+            return '%s: stamp from the path and stamp from a fresh reader differ in state %r' % (names[c], s1)
+        if s1[0] == 'F' and r[1] != 'rew=1':
+            return '%s: after stamp_reader the task does not read the full content (reader not left at the start), state %r' % (names[c], s1)
+        if u[0] != '0':
+            return '%s: check against its own stamp reports inconsistent although nothing was modified, state %r' % (names[c], s1)
+        if s1[0] == 'D':
+            if w[0] != 'err': return 'opening a directory for writing did not fail'
+        else:
+            if w[0] != 'eq=1': return '%s: stamp from a just-used writer differs from a stamp of the path in the same state' % names[c]
+            if w[1] != 'content=1': return 'opening for writing did not create/truncate the file (state %r)' % (s1,)
+        exp = None
+        if c == 'E': exp = ex(s1) != ex(s2)
+        elif c == 'M': exp = mt(s1) != mt(s2)
+        else:
+            if s1[0] == 'A' or s2[0] == 'A': exp = ex(s1) != ex(s2)
+            elif s1[0] == 'F' and s2[0] == 'F': exp = fs_content_differs(s1, s2)
+            elif s1[0] == 'D' and s2[0] == 'D': exp = set(s1[2]) != set(s2[2])
+            else: exp = None     # file <-> directory: not claimed for the hash checker
+        if exp is not None and (k[0] == '1') != exp:
+            what = {'E': 'existence', 'M': 'modification time', 'H': 'content / set of entry names'}[c]
+            return '%s: stamped in %r, checked in %r: reported %s, but the %s %s' % (names[c], s1, s2, 'inconsistent' if k[0] == '1' else 'consistent', what, 'differs' if exp else 'is the same')
+    return None
+
+RULES['C13'] = 'ordered pairs (state when stamped, state when checked) over absent / files of sizes 0..20000 around the 8 KiB read buffer in four content variants and two mtimes / directories with twelve name sets, on a real temporary filesystem with explicit modification times: three stamp routes, check untouched, check after the change, reader position after stamp_reader, open-for-write; compared with the model (OS modelled, listing order taken from readdir) and with the documented meaning'
+ASSUMPTIONS['C13'] = ['the operating system (stat, readdir order, timestamp granularity, BufReader) is modelled, not verified', 'SHA-256 is modelled as an injective function (sha_inj hypothesis in the theorems)']
+
+
+def fs_with_listing(toks, lines):
+    """rewrite the directory states of a case with the entry order readdir reported"""
+    order = {}
+    for l in lines:
+        f = l.split()
+        if f[0] == 'ls': order[int(f[1])] = f[2:]
+    s1, i = fs_parse_state(toks, 0)
+    s2, _ = fs_parse_state(toks, i + 1)
+    out = []
+    for j, s in enumerate((s1, s2)):
+        if s[0] == 'A': out += ['A']
+        elif s[0] == 'F': out += ['F', str(s[1]), str(s[2]), str(s[3])]
+        else:
+            names = order.get(j, list(s[2]))
+            out += ['D', str(s[1]), str(len(names))] + list(names)
+        if j == 0: out.append('|')
+    return out
